@@ -24,9 +24,22 @@ type gpay struct {
 	flush bool
 }
 
+// the ids are distinct strings that differ in surrounding white space and in case only: an id is
+// compared exactly, and anything but the empty string is an id
 func gidS(i int) string {
-	if i == 0 {
+	switch i {
+	case 0:
 		return ""
+	case 1:
+		return "req"
+	case 2:
+		return "req\n"
+	case 3:
+		return " "
+	case 4:
+		return " req"
+	case 5:
+		return "REQ"
 	}
 	return fmt.Sprintf("g%d", i)
 }
